@@ -48,6 +48,8 @@ type tnode struct {
 	fields []*tfield // struct
 	lib    string    // name of the hand-written struct type, "" for StructOf
 	rt     reflect.Type
+	// topColl: wrapper around the one slice / map that is itself the Unpack target
+	topColl bool
 }
 
 type tfield struct {
@@ -365,14 +367,19 @@ func buildStruct(n *tnode) reflect.Type {
 }
 
 func (g *tgen) field(depth, pos int) *tfield {
+	x := g.r.Intn(100)
+	if depth >= 2 || g.budget <= 0 {
+		x = g.r.Intn(62) // no further structs
+	}
+	return g.fieldOf(depth, x)
+}
+
+// fieldOf builds a field of the category x selects (see the cases).
+func (g *tgen) fieldOf(depth, x int) *tfield {
 	r := g.r
 	f := &tfield{}
 	f.goName, f.cfg = g.name()
 	deep := depth >= 2
-	x := r.Intn(100)
-	if deep || g.budget <= 0 {
-		x = r.Intn(62) // no further structs
-	}
 	switch {
 	case x < 30: // scalar
 		k := g.scalarKind()
@@ -480,4 +487,22 @@ func genType(r *rand.Rand) *tnode {
 	return n
 }
 
-func (t *tnode) String() string { return fmt.Sprint(t.rt) }
+// genTopColl builds a wrapper struct around ONE slice or map. The check hands
+// the slice / map itself to Unpack (the top-level target is not a struct);
+// the wrapper only lets plans, model and walk work as for any other type.
+func genTopColl(r *rand.Rand) *tnode {
+	g := &tgen{r: r, budget: 5 + r.Intn(6)}
+	x := []int{42, 44, 46, 52, 84, 85, 86, 87, 88, 95, 97}[r.Intn(11)]
+	f := g.fieldOf(0, x)
+	f.cfg, f.vals, f.mode = "w", nil, ""
+	n := &tnode{k: kStruct, fields: []*tfield{f}, topColl: true}
+	n.rt = buildStruct(n)
+	return n
+}
+
+func (t *tnode) String() string {
+	if t.topColl {
+		return fmt.Sprint(t.fields[0].t.rt)
+	}
+	return fmt.Sprint(t.rt)
+}
